@@ -31,11 +31,15 @@ func init() {
 	model.Schemas["shared"] = `module shared { yang-version 1.1; namespace "urn:shared"; prefix sh; revision 0;
   feature f1;
   identity base-id; identity id-a { base base-id; } identity id-b { base id-a; } identity id-z { base base-id; } identity id-m { base base-id; } identity id-y { base id-a; } identity id-c { base id-a; }
+  identity b1; identity b2; identity b3; identity bq; identity br;
+  identity p1 { base b1; base b2; base b3; } identity q1 { base bq; } identity r1 { base br; }
+  typedef t3 { type identityref { base b1; base b2; base b3; } }
   typedef t1 { type int32 { range "0..100"; } default 7; units "u"; }
   grouping g { leaf gl { type t1; } container gc { leaf gx { type string { pattern "[a-z]*"; length "0..8"; } } } }
   leaf top { type string; }
   container c { uses g; leaf idr { type identityref { base base-id; } } leaf e { type enumeration { enum one; enum two; } } leaf w { when "gl>3"; type string; }
     leaf un { type union { type int32; type string; } } leaf bits { type bits { bit x; bit y; } } leaf lr { type leafref { path "../e"; } } leaf dec { type decimal64 { fraction-digits 2; range "0..10"; } } leaf em { type empty; } leaf bin { type binary; } leaf u64 { type uint64; } leaf-list les { type enumeration { enum one; enum two; } }
+    leaf ux { type union { type t3; type identityref { base bq; } } } leaf uy { type union { type t3; type identityref { base br; } } }
     choice ch { case ca { leaf ca1 { type string; } } case cb { container cb1 { leaf x { type string; } } } } }
   list l { key k; leaf k { type string; } leaf v { type int32; default 3; } uses g; list n { key j; leaf j { type int32; } leaf u { type string; } } }
   leaf-list ll { type string; }
@@ -98,7 +102,7 @@ func (p *c20) Cases(tier string, emit func(interface{})) {
 }
 
 // string values hold characters every writer has to escape (quote, backslash, markup, control, non-ASCII)
-const c20Data = `{"top":"t\"q\\b<&>\u00e9\n\u2028","c":{"gl":5,"gc":{"gx":"abc"},"idr":"id-b","e":"two","w":"shown","ca1":"x","un":5,"bits":"x","lr":"two","dec":1.5,"em":[null],"bin":"AQID","u64":"18446744073709551615","les":["one","two"]},"l":[{"k":"a","v":1,"gl":9,"n":[{"j":1,"u":"a"},{"j":2,"u":"b"}]},{"k":"b","gc":{"gx":"z"}}],"ll":["p","q\"<\u00e9>"]}`
+const c20Data = `{"top":"t\"q\\b<&>\u00e9\n\u2028","c":{"gl":5,"gc":{"gx":"abc"},"idr":"id-b","e":"two","w":"shown","ca1":"x","un":5,"bits":"x","lr":"two","dec":1.5,"em":[null],"bin":"AQID","u64":"18446744073709551615","les":["one","two"],"ux":"p1","uy":"r1"},"l":[{"k":"a","v":1,"gl":9,"n":[{"j":1,"u":"a"},{"j":2,"u":"b"}]},{"k":"b","gc":{"gx":"z"}}],"ll":["p","q\"<\u00e9>"]}`
 
 const c20LoadText = `module ld { yang-version 1.1; namespace "urn:ld"; prefix ld; import dep { prefix d; } include sub; revision 0;
   feature f; grouping g { leaf a { type d:dt; } container c { leaf b { type string; } } }
@@ -202,7 +206,7 @@ func c20Body(op string, m *meta.Module, out *string) func(yield func()) {
 			fmt.Fprintf(&res, "err=%v out=%s", err, s)
 		case "upsert":
 			r, b := newStore()
-			n, err := nodeutil.ReadJSON(`{"c":{"gl":50,"cb1":{"x":"y"},"idr":"id-a","un":"text","bits":"x y","lr":"one","dec":2.25,"les":["two"]},"l":[{"k":"c","n":[{"j":3}]},{"k":"a","v":2}]}`)
+			n, err := nodeutil.ReadJSON(`{"c":{"gl":50,"cb1":{"x":"y"},"idr":"id-a","un":"text","bits":"x y","lr":"one","dec":2.25,"les":["two"],"ux":"q1","uy":"p1"},"l":[{"k":"c","n":[{"j":3}]},{"k":"a","v":2}]}`)
 			if err == nil {
 				err = b.Root().UpsertFrom(n)
 			}
@@ -249,7 +253,7 @@ func c20Body(op string, m *meta.Module, out *string) func(yield func()) {
 		case "set":
 			r, b := newStore()
 			var errs []string
-			for _, kv := range [][2]string{{"c/gl", "101"}, {"c/gl", "42"}, {"c/gc/gx", "UPPER"}, {"c/gc/gx", "ok"}, {"c/e", "one"}, {"c/un", "7"}, {"c/un", "seven"}, {"c/bits", "y"}, {"c/bits", "zz"}, {"c/dec", "11"}, {"c/lr", "two"}, {"c/idr", "id-a"}, {"c/idr", "nope"}} {
+			for _, kv := range [][2]string{{"c/gl", "101"}, {"c/gl", "42"}, {"c/gc/gx", "UPPER"}, {"c/gc/gx", "ok"}, {"c/e", "one"}, {"c/un", "7"}, {"c/un", "seven"}, {"c/bits", "y"}, {"c/bits", "zz"}, {"c/dec", "11"}, {"c/lr", "two"}, {"c/idr", "id-a"}, {"c/idr", "nope"}, {"c/ux", "q1"}, {"c/uy", "r1"}, {"c/ux", "r1"}} {
 				sel, err := b.Root().Find(kv[0])
 				if err == nil && sel != nil {
 					err = sel.SetValue(kv[1])
